@@ -562,6 +562,10 @@ func judge(j Judge, res []RunResult, runErr error) (confirmed bool, observed any
 }
 
 var replayWorld *World
+var replayMemo = map[string]struct {
+	ok  bool
+	obs any
+}{}
 
 func confirmViolations(d *Driver, viols []Violation) {
 	if len(viols) == 0 {
@@ -623,10 +627,21 @@ func confirmViolations(d *Driver, viols []Violation) {
 				registrySpecOps = ops
 			}
 		}
-		res, rerr := runRunner(useBin, v.Replay.Steps, 120*time.Second, 8<<20)
-		ok, obs := judge(v.Replay.Judge, res, rerr)
-		if v.Replay.Judge.Note == "race" && raceSeen {
-			ok, obs = true, map[string]any{"race_detector": "DATA RACE reported", "result": obs}
+		keyRaw, _ := json.Marshal(map[string]any{"s": v.Replay.Steps, "j": v.Replay.Judge})
+		var ok bool
+		var obs any
+		if m, seen := replayMemo[string(keyRaw)]; seen {
+			ok, obs = m.ok, m.obs
+		} else {
+			res, rerr := runRunner(useBin, v.Replay.Steps, 120*time.Second, 8<<20)
+			ok, obs = judge(v.Replay.Judge, res, rerr)
+			if v.Replay.Judge.Note == "race" && raceSeen {
+				ok, obs = true, map[string]any{"race_detector": "DATA RACE reported", "result": obs}
+			}
+			replayMemo[string(keyRaw)] = struct {
+				ok  bool
+				obs any
+			}{ok, obs}
 		}
 		v.Observed = obs
 		if ok {
